@@ -40,8 +40,8 @@ CLAIMED = {
    note="Trusted: time.AfterFunc / Timer.Stop / sync.Cond contracts.",
    ref="DESIGN.md section 4 C20"),
  "C07": dict(
-   technique="who-may-call, access-path origin agreement (accessors inlined) and path rules on go/ssa over cache/lrucache.go",
-   text="Decides the structure that ties map, list and results together: exactly Add, Get and GetOldest reach the list's move primitive and move the entry they found (AG1); in every remover the key deleted from the map, the node unlinked from the list and the key/value returned derive from one origin, oldest = root.prev, youngest = root.next, front operations anchor at &root (AG7); map and list change in pairs; every path of Add after the insertion reaches count > size whose true edge evicts through RemoveOldest and returns its result (PT2/PT3); NewLRU rejects size <= 0 and size is written nowhere else; list length bookkeeping (AG4). The recency order of concrete histories is not decided.",
+   technique="who-may-call, access-path origin agreement (accessors inlined), path rules and a local shape analysis (symbolic heap with lazy materialisation and exhaustive alias case split) on go/ssa over cache/lrucache.go",
+   text="Decides the structure that ties map, list and results together: exactly Add, Get and GetOldest reach the list's move primitive and move the entry they found (AG1); in every remover the key deleted from the map, the node unlinked from the list and the key/value returned derive from one origin, oldest = root.prev, youngest = root.next, front operations anchor at &root (AG7); map and list change in pairs; every path of Add after the insertion reaches count > size whose true edge evicts through RemoveOldest and returns its result (PT2/PT3); NewLRU rejects size <= 0 and size is written nowhere else; list length bookkeeping (AG4); SH1 local shape rule: for every aliasing of the parameters, their neighbours and the sentinel (57 cases, enumerated by materialisation over a symbolic heap) moveAfter, addAfter and remove leave exactly the promised splice of the circular doubly linked list and newLRUList links the sentinel to itself. The recency order of concrete histories is not decided.",
    note="Trusted: go/ssa; access paths are compared syntactically after inlining pure accessors, with a no-intervening-list-write side condition per rule.",
    ref="DESIGN.md section 3 E7, section 4 C07"),
  "C09": dict(
